@@ -171,6 +171,18 @@ def make_cases(ctx):
             ("rsaSigHashes", policy.HASHES),
             ("ecdsaSigHashes", policy.HASHES),
             ("more_sig_schemes", policy.MORE)]
+    # external PSKs bound to either hash, with and without a certificate,
+    # every combination of key exchange modes: compatible by construction
+    for h in ("sha256", "sha384"):
+        for with_cert in (True, False):
+            for cm in (["psk_dhe_ke", "psk_ke"], ["psk_ke"], ["psk_dhe_ke"]):
+                for sm in (["psk_dhe_ke", "psk_ke"], ["psk_ke"],
+                           ["psk_dhe_ke"]):
+                    if not set(cm) & set(sm):
+                        continue
+                    yield "psk-%s-%d-%s-%s" % (h, with_cert, "+".join(cm),
+                                               "+".join(sm)), dict(
+                        kind="pskpair", hash=h, cert=with_cert, cm=cm, sm=sm)
     for side in ("server", "client"):
         for dim, values in dims:
             for v in values:
@@ -630,8 +642,48 @@ def directed(P, rng):
     return d, hs, {}, other, skey
 
 
+def run_pskpair(ctx, cid, P):
+    from vt import creds
+    psk = (creds.PSK_ID, creds.PSK_SECRET, P["hash"])
+    cs = HandshakeSettings()
+    ss = HandshakeSettings()
+    cs.pskConfigs = [psk]
+    ss.pskConfigs = [psk]
+    cs.psk_modes = list(P["cm"])
+    ss.psk_modes = list(P["sm"])
+    try:
+        cs.validate()
+        ss.validate()
+    except ValueError:
+        ctx.count("directed_invalid")
+        return
+    fl = Flavor("psk", skey="rsa" if P["cert"] else None, cset=cs, sset=ss)
+    p = Pair()
+    tc, ts = p.handshake(fl)
+    ctx.ev()
+    ctx.count("pairs")
+    ctx.count("psk_pairs")
+    W = {"case": cid, "params": {k: P[k] for k in ("hash", "cert", "cm",
+                                                   "sm")},
+         "outcome": [outcome(tc), outcome(ts)]}
+    if tc.status != "done" or ts.status != "done":
+        e = ts.exc if ts.exc is not None else tc.exc
+        ctx.violation({"clause": "compatible_but_failed", "mech": "psk",
+                       "ver": "TLS1.3", "keytype": "psk/" + P["hash"],
+                       "server": str(outcome(ts)),
+                       "client": str(outcome(tc)), "msg": str(e)[:60]}, W,
+                      "both sides hold the same PSK (%s) and share a key "
+                      "exchange mode: %r / %r" % (P["hash"], tc.exc, ts.exc))
+    else:
+        ctx.count("compatible_connected")
+        ctx.cell("negotiated", "TLS1.3|psk|%s|%s" % (
+            P["hash"], suites.TABLE[p.c.session.cipherSuite].name))
+
+
 def run_pair(ctx, cid, P):
     rng = ctx.rng
+    if P["kind"] == "pskpair":
+        return run_pskpair(ctx, cid, P)
     if P["kind"] == "dpair":
         r = directed(P, rng)
         if r is None:
